@@ -33,6 +33,7 @@ struct model_state
   unsigned gets, tells, seeks;
   unsigned *state; // -> the iostate word inside the istream object (engine build)
   unsigned native_dummy;
+  bool noseek; // forward-only source: rdbuf()->pubseekoff / pubseekpos fail (the default of std::basic_streambuf)
 };
 template <typename Ch>
 inline model_state<Ch> msv{};
@@ -58,7 +59,7 @@ protected:
   {
     off_type const base_off = dir == std::ios_base::beg ? 0 : (dir == std::ios_base::cur ? msv<Ch>.off : msv<Ch>.n);
     off_type const np = base_off + o;
-    if (np < 0 || np > msv<Ch>.n)
+    if (msv<Ch>.noseek || np < 0 || np > msv<Ch>.n)
       return pos_type(off_type(-1));
     msv<Ch>.off = np;
     return pos_type(np);
@@ -104,6 +105,11 @@ public:
     vt_[1] = 0;
     vt_[2] = 0;
     vt_[3] = 0;
+    // every other byte of the fake object is a defined zero: code that reaches into istream internals the model does
+    // not provide (e.g. a std::getline inlined into the code under test) then runs into null facets / buffers and ends
+    // in a reported throw or null dereference instead of an "uninitialised read" the driver only lists
+    for (unsigned i = 0; i < sizeof(raw_); ++i)
+      raw_[i] = 0;
     *reinterpret_cast<long **>(raw_) = &vt_[3];
     // libstdc++ ios_base: vptr, _M_precision, _M_width (8 each), _M_flags, _M_exception (4 each), _M_streambuf_state
     // at offset 32 (the native build asserts this layout against the real class, see the other holder)
@@ -128,6 +134,7 @@ void set_text_symbolic_ch(unsigned const n)
   msv<Ch>.n = n;
   msv<Ch>.off = 0;
   msv<Ch>.gets = msv<Ch>.tells = msv<Ch>.seeks = 0;
+  msv<Ch>.noseek = false;
   for (unsigned i = 0; i < max_text; ++i)
   {
     // input names are built at run time (a constant table of strings becomes a relative lookup table in the IR)
@@ -178,6 +185,10 @@ std::streampos model_tellg()
     *m.state |= failbit;
     return std::streampos(std::streamoff(-1));
   }
+  // [istream.unformatted] tellg: "if fail() != false, returns pos_type(-1) ... Otherwise, returns
+  // rdbuf()->pubseekoff(0, cur, in)": a buffer that cannot seek answers pos_type(-1) and NO state bit is set
+  if (m.noseek)
+    return std::streampos(std::streamoff(-1));
   return std::streampos(std::streamoff(m.off));
 }
 // seekg(pos): clears eofbit first (C++11 / N3168); sentry; if !fail() rdbuf()->pubseekpos(pos, in), failure -> failbit
@@ -193,7 +204,7 @@ void model_seekg(std::streampos const p)
     return;
   }
   long const np = static_cast<long>(std::streamoff(p));
-  if (np < 0 || np > m.n)
+  if (m.noseek || np < 0 || np > m.n)
     *m.state |= failbit;
   else
     m.off = np;
@@ -245,6 +256,8 @@ template <typename Ch>
 void model_iss_ctor(void *const self, std::basic_string<Ch> &&s)
 {
   unsigned char *const raw = static_cast<unsigned char *>(self);
+  for (unsigned i = 0; i < sizeof(std::basic_istringstream<Ch>); ++i)
+    raw[i] = 0; // see basic_holder: no uninitialised bytes in the fake object
   *reinterpret_cast<long **>(raw) = &iss_vt[3];
   // the inlined destructor destroys the stringbuf's std::string (at 16 + 72): give it the empty small-string state
   *reinterpret_cast<unsigned char **>(raw + 88) = raw + 104;
@@ -259,6 +272,7 @@ void model_iss_ctor(void *const self, std::basic_string<Ch> &&s)
   m.n = static_cast<long>(s.size());
   m.off = 0;
   m.gets = m.tells = m.seeks = 0;
+  m.noseek = false;
   verif_assert(s.size() <= max_text, "model text capacity");
   for (unsigned i = 0; i < max_text; ++i)
     m.text[i] = i < s.size() ? s[i] : Ch{};
